@@ -85,14 +85,14 @@ package hotkey
 //@   flag forward-frames
 //@   requires c != nil
 //@   requires @report-well-formed reportwf(c.keys) && len(c.keys) <= int(c.capacity)
-//@   requires @counters-registered forall n string :: has(c.counters, n) ==> c.counters[n] != nil
+//@   requires @counters-registered forall n string :: has(c.counters, n) ==> c.counters[n] != nil && cinvmap(c.counters[n])
 //@   modifies all, latchedkeys
 //@   ensures @report-well-formed reportwf(c.keys) && len(c.keys) <= int(c.capacity)
 //@   ensures @only-reported-or-latched-keys forall j int :: 0 <= j && j < len(c.keys) ==> old(inreport(c.keys, now(c.keys[j].Name))) || has(latchedkeys, c.keys[j].Name)
 //@   loop 0 invariant forall k string :: has(accessedKeyNames, k) ==> has(latchedkeys, k)
-//@   loop 0 invariant forall n string :: has(c.counters, n) ==> c.counters[n] != nil
+//@   loop 0 invariant forall n string :: has(c.counters, n) ==> c.counters[n] != nil && cinvmap(c.counters[n]) && c.counters[n].items != accessedKeyNames
 //@   loop 1 invariant forall k string :: has(accessedKeyNames, k) ==> has(latchedkeys, k)
-//@   loop 1 invariant forall n string :: has(c.counters, n) ==> c.counters[n] != nil
+//@   loop 1 invariant forall n string :: has(c.counters, n) ==> c.counters[n] != nil && cinvmap(c.counters[n]) && c.counters[n].items != accessedKeyNames
 //@   loop 2 invariant forall k string :: has(accessedKeyNames, k) ==> has(latchedkeys, k)
 //@   loop 2 invariant @report-untouched sameslice(c.keys, old(c.keys)) && forall i int :: 0 <= i && i < len(c.keys) ==> c.keys[i].Name == old(c.keys[i].Name)
 //@   loop 2 invariant nonnilkeys(c.keys) && distinctkeys(c.keys) && distinctcounters(c.keys)
@@ -117,10 +117,16 @@ package hotkey
 
 //@ func (*Counter).Latch
 //@   prop C19
-//@   requires c != nil
+//@   flag strict-nil
+//@   requires @tracked-items-have-a-count c != nil && cinvmap(c)
 //@   modifies c.items, c.freqHead, latchedkeys
 //@   ghostdef forall k string :: has(latchedkeys, k) == (old(has(latchedkeys, k)) || old(has(c.items, k)))
-//@   ensures @reports-the-tracked-keys result != nil && forall k string :: has(result, k) ==> old(has(c.items, k))
+//@   ensures @reports-the-tracked-keys result != nil && fresh(result) && forall k string :: has(result, k) == old(has(c.items, k))
+//@   ensures @reports-exact-counts forall k string :: has(result, k) ==> result[k] == old(c.items[k].freqNode.freq)
+//@   ensures @starts-over cwf(c) && cinvmap(c) && len(c.items) == 0 && fresh(c.items)
+//@   loop 0 invariant res != nil && fresh(res) && c.items == old(c.items)
+//@   loop 0 invariant forall k string :: has(res, k) ==> has(visited0, k) && has(c.items, k) && res[k] == c.items[k].freqNode.freq
+//@   loop 0 invariant forall k string :: has(visited0, k) ==> has(res, k)
 
 // exact pointer effects of the list primitives (the counter-level invariant is proved on top of them)
 
@@ -202,39 +208,63 @@ package hotkey
 //@   requires c != nil
 //@   modifies c.items, c.freqHead
 //@   ensures @emptied c.items != nil && fresh(c.items) && len(c.items) == 0 && c.freqHead == nil && forall k string :: !has(c.items, k)
+//@   unfold @ret cwf(c)
 //@   ensures @well-formed cwf(c)
 
 //@ func (*Counter).add
 //@   prop C19
 //@   flag strict-nil
-//@   requires cwf(c)
+//@   unfold @ret cwf(c)
+//@   requires c != nil
+//@   requires @map-well-formed cinvmap(c)
+//@   requires @item-links-next ilnext(c)
+//@   requires @item-links-prev ilprev(c)
+//@   requires @item-links-head ilhead(c)
+//@   requires @item-links-tail iltail(c)
+//@   requires @item-order-unique ibuniq(c)
+//@   requires @item-order-up ibup(c)
+//@   requires @item-order-down ibdown(c)
+//@   requires @item-ends cinvends(c)
+//@   requires @node-links-next nlnext(c)
+//@   requires @node-links-prev nlprev(c)
+//@   requires @node-links-head nlhead(c)
+//@   requires @node-order-unique nbuniq(c)
+//@   requires @node-order-up nbup(c)
+//@   requires @node-order-down nbdown(c)
+//@   requires @head-is-lowest cinvhead(c)
 //@   requires @new-detached-item item != nil && !has(c.items, item.key) && item.prev == nil && item.next == nil && item.freqNode == nil
 //@   modifies all, ipos, iat
-//@   ensures @map-well-formed c.items == old(c.items) && cinvmap(c)
-//@   ensures @item-links-next ilnext(c)
-//@   ensures @item-links-prev ilprev(c)
-//@   ensures @item-links-head ilhead(c)
-//@   ensures @item-links-tail iltail(c)
-//@   ensures @item-order-unique ibuniq(c)
-//@   ensures @item-order-up ibup(c)
-//@   ensures @item-order-down ibdown(c)
-//@   ensures @item-ends cinvends(c)
-//@   ensures @node-links-next nlnext(c)
-//@   ensures @node-links-prev nlprev(c)
-//@   ensures @node-links-head nlhead(c)
-//@   ensures @node-order-unique nbuniq(c)
-//@   ensures @node-order-up nbup(c)
-//@   ensures @node-order-down nbdown(c)
-//@   ensures @head-is-lowest cinvhead(c)
-//@   ensures @admitted-with-count-one tracked(c, item) && item.freqNode.freq == 1
+//@   ensures @same-map c.items == old(c.items)
+//@   proves @map-well-formed cinvmap(c)
+//@   proves @item-links-next ilnext(c)
+//@   proves @item-links-prev ilprev(c)
+//@   proves @item-links-head ilhead(c)
+//@   proves @item-links-tail iltail(c)
+//@   proves @item-order-unique ibuniq(c)
+//@   proves @item-order-up ibup(c)
+//@   proves @item-order-down ibdown(c)
+//@   proves @item-ends cinvends(c)
+//@   proves @node-links-next nlnext(c)
+//@   proves @node-links-prev nlprev(c)
+//@   proves @node-links-head nlhead(c)
+//@   proves @node-order-unique nbuniq(c)
+//@   proves @node-order-up nbup(c)
+//@   proves @node-order-down nbdown(c)
+//@   proves @head-is-lowest cinvhead(c)
+//@   ensures @admitted-with-count-one tracked(c, item) && has(c.items, item.key) && c.items[item.key] == item && item.freqNode.freq == 1 && len(c.items) == old(len(c.items)) + 1
+//@   ensures @other-keys-keep-their-count forall k string :: k != item.key ==> has(c.items, k) == old(has(c.items, k)) && (has(c.items, k) ==> c.items[k] == old(c.items[k]) && c.items[k].freqNode == old(c.items[k].freqNode) && c.items[k].freqNode.freq == old(c.items[k].freqNode.freq))
+//@   ensures @well-formed cwf(c)
 
 //@ func (*Counter).evict
 //@   prop C19
 //@   flag strict-nil
 //@   let victim = c.freqHead.itemHead
+//@   unfold cwf(c)
+//@   unfold @ret cwf(c)
 //@   requires cwf(c) && c.freqHead != nil
 //@   modifies all
-//@   ensures @map-well-formed c.items == old(c.items) && cinvmap(c)
+//@   ensures @same-map c.items == old(c.items)
+//@   ensures @map-well-formed cinvmap(c)
 //@   ensures @item-links-next ilnext(c)
 //@   ensures @item-links-prev ilprev(c)
 //@   ensures @item-links-head ilhead(c)
@@ -253,6 +283,7 @@ package hotkey
 //@   ensures @one-key-evicted old(has(c.items, victim.key)) && !has(c.items, victim.key) && len(c.items) == old(len(c.items)) - 1
 //@   ensures @victim-had-the-lowest-count forall k string :: old(has(c.items, k)) ==> old(c.items[k].freqNode.freq) >= old(victim.freqNode.freq)
 //@   ensures @other-keys-keep-their-count forall k string :: k != victim.key ==> has(c.items, k) == old(has(c.items, k)) && (has(c.items, k) ==> c.items[k] == old(c.items[k]) && c.items[k].freqNode == old(c.items[k].freqNode) && c.items[k].freqNode.freq == old(c.items[k].freqNode.freq))
+//@   ensures @well-formed cwf(c)
 
 //@ func (*Counter).increment
 //@   prop C19
@@ -261,40 +292,107 @@ package hotkey
 //@   let nxt = item.freqNode.next
 //@   let prv = item.freqNode.prev
 //@   let reuse = item.freqNode.next != nil && item.freqNode.next.freq == item.freqNode.freq + 1
+//@   unfold cwf(c)
+//@   unfold @ret cwf(c)
 //@   requires cwf(c) && tracked(c, item)
 //@   requires @count-below-max-uint64 item.freqNode.freq < 18446744073709551615
 //@   modifies all, ipos, iat
-//@   ensures @map-well-formed c.items == old(c.items) && cinvmap(c) && forall k string :: has(c.items, k) == old(has(c.items, k)) && (has(c.items, k) ==> c.items[k] == old(c.items[k]))
-//@   ensures @item-links-next ilnext(c)
-//@   ensures @item-links-prev ilprev(c)
-//@   ensures @item-links-head ilhead(c)
-//@   ensures @item-links-tail iltail(c)
-//@   ensures @item-order-unique ibuniq(c)
-//@   ensures @item-order-up ibup(c)
-//@   ensures @item-order-down ibdown(c)
-//@   ensures @item-ends cinvends(c)
-//@   ensures @lemma-target-is-live livef(c, item.freqNode) && item.freqNode != old(item.freqNode) && item.freqNode.freq == old(item.freqNode.freq) + 1
-//@   ensures @lemma-other-nodes-keep-their-liveness forall n *freqNode :: {n.itemHead} n != old(item.freqNode) && n != item.freqNode ==> livef(c, n) == old(livef(c, n))
-//@   ensures @lemma-old-node-live-iff-not-emptied livef(c, old(item.freqNode)) == (old(item.freqNode).itemHead != nil)
-//@   ensures @lemma-target-reused-or-new (reuse ==> item.freqNode == nxt) && (!reuse ==> fresh(item.freqNode))
-//@   ensures @lemma-links-elsewhere-untouched forall n *freqNode :: {n.next} {n.prev} n != cur && n != item.freqNode && n != nxt && n != prv ==> n.next == old(n.next) && n.prev == old(n.prev)
-//@   ensures @lemma-links-when-old-node-stays cur.itemHead != nil ==> cur.next == item.freqNode && cur.prev == prv && item.freqNode.prev == cur && item.freqNode.next == ite(reuse, old(nxt.next), nxt) && (!reuse && nxt != nil ==> nxt.prev == item.freqNode && nxt.next == old(nxt.next)) && (prv != nil ==> prv.next == cur && prv.prev == old(prv.prev)) && c.freqHead == old(c.freqHead)
-//@   ensures @lemma-links-when-old-node-goes cur.itemHead == nil ==> item.freqNode.prev == prv && item.freqNode.next == ite(reuse, old(nxt.next), nxt) && (!reuse && nxt != nil ==> nxt.prev == item.freqNode && nxt.next == old(nxt.next)) && (prv != nil ==> prv.next == item.freqNode && prv.prev == old(prv.prev)) && c.freqHead == ite(old(c.freqHead) == cur, item.freqNode, old(c.freqHead))
-//@   ensures @node-links-next nlnext(c)
-//@   ensures @node-links-prev nlprev(c)
-//@   ensures @node-links-head nlhead(c)
-//@   ensures @lemma-live-nodes-were-live-or-are-the-target forall m *freqNode :: {m.freq} livef(c, m) ==> m == item.freqNode || (old(livef(c, m)) && m != cur) || (m == cur && cur.itemHead != nil)
-//@   ensures @lemma-no-live-node-between-old-and-new-count forall m *freqNode :: {m.freq} livef(c, m) ==> m.freq <= old(cur.freq) || m.freq >= old(cur.freq) + 1
-//@   ensures @lemma-unique-at-target forall m *freqNode :: {m.freq} livef(c, m) && m != item.freqNode ==> m.freq != item.freqNode.freq
-//@   ensures @lemma-up-at-target forall m *freqNode :: {m.freq} livef(c, m) && m.freq > item.freqNode.freq ==> item.freqNode.next != nil && m.freq >= item.freqNode.next.freq
-//@   ensures @lemma-down-at-target forall m *freqNode :: {m.freq} livef(c, m) && m.freq < item.freqNode.freq ==> item.freqNode.prev != nil && m.freq <= item.freqNode.prev.freq
-//@   ensures @lemma-up-at-previous-node prv != nil ==> forall m *freqNode :: {m.freq} livef(c, m) && m.freq > prv.freq ==> prv.next != nil && m.freq >= prv.next.freq
-//@   ensures @lemma-up-elsewhere forall n *freqNode, m *freqNode :: {n.next, m.freq} livef(c, n) && livef(c, m) && n != item.freqNode && n != cur && n != prv && m.freq > n.freq ==> n.next != nil && m.freq >= n.next.freq
-//@   ensures @lemma-down-at-next-node nxt != nil ==> forall m *freqNode :: {m.freq} livef(c, m) && m.freq < nxt.freq ==> nxt.prev != nil && m.freq <= nxt.prev.freq
-//@   ensures @lemma-down-elsewhere forall n *freqNode, m *freqNode :: {n.prev, m.freq} livef(c, n) && livef(c, m) && n != item.freqNode && n != cur && n != nxt && m.freq < n.freq ==> n.prev != nil && m.freq <= n.prev.freq
-//@   ensures @node-order-unique nbuniq(c)
-//@   ensures @node-order-up nbup(c)
-//@   ensures @node-order-down nbdown(c)
-//@   ensures @head-is-lowest cinvhead(c)
-//@   ensures @count-goes-up-by-one item.freqNode.freq == old(item.freqNode.freq) + 1
+//@   ensures @same-keys-same-items c.items == old(c.items) && forall k string :: has(c.items, k) == old(has(c.items, k)) && (has(c.items, k) ==> c.items[k] == old(c.items[k]))
+//@   proves @map-well-formed cinvmap(c)
+//@   proves @item-links-next ilnext(c)
+//@   proves @item-links-prev ilprev(c)
+//@   proves @item-links-head ilhead(c)
+//@   proves @item-links-tail iltail(c)
+//@   proves @item-order-unique ibuniq(c)
+//@   proves @item-order-up ibup(c)
+//@   proves @item-order-down ibdown(c)
+//@   proves @item-ends cinvends(c)
+//@   proves @lemma-target-is-live livef(c, item.freqNode) && item.freqNode != old(item.freqNode) && item.freqNode.freq == old(item.freqNode.freq) + 1
+//@   proves @lemma-other-nodes-keep-their-liveness forall n *freqNode :: {n.itemHead} n != old(item.freqNode) && n != item.freqNode ==> livef(c, n) == old(livef(c, n))
+//@   proves @lemma-old-node-live-iff-not-emptied livef(c, old(item.freqNode)) == (old(item.freqNode).itemHead != nil)
+//@   proves @lemma-target-reused-or-new (reuse ==> item.freqNode == nxt) && (!reuse ==> fresh(item.freqNode))
+//@   proves @lemma-links-elsewhere-untouched forall n *freqNode :: {n.next} {n.prev} n != cur && n != item.freqNode && n != nxt && n != prv ==> n.next == old(n.next) && n.prev == old(n.prev)
+//@   proves @lemma-links-when-old-node-stays cur.itemHead != nil ==> cur.next == item.freqNode && cur.prev == prv && item.freqNode.prev == cur && item.freqNode.next == ite(reuse, old(nxt.next), nxt) && (!reuse && nxt != nil ==> nxt.prev == item.freqNode && nxt.next == old(nxt.next)) && (prv != nil ==> prv.next == cur && prv.prev == old(prv.prev)) && c.freqHead == old(c.freqHead)
+//@   proves @lemma-links-when-old-node-goes cur.itemHead == nil ==> item.freqNode.prev == prv && item.freqNode.next == ite(reuse, old(nxt.next), nxt) && (!reuse && nxt != nil ==> nxt.prev == item.freqNode && nxt.next == old(nxt.next)) && (prv != nil ==> prv.next == item.freqNode && prv.prev == old(prv.prev)) && c.freqHead == ite(old(c.freqHead) == cur, item.freqNode, old(c.freqHead))
+//@   proves @node-links-next nlnext(c)
+//@   proves @node-links-prev nlprev(c)
+//@   proves @node-links-head nlhead(c)
+//@   proves @lemma-live-nodes-were-live-or-are-the-target forall m *freqNode :: {m.freq} livef(c, m) ==> m == item.freqNode || (old(livef(c, m)) && m != cur) || (m == cur && cur.itemHead != nil)
+//@   proves @lemma-no-live-node-between-old-and-new-count forall m *freqNode :: {m.freq} livef(c, m) ==> m.freq <= old(cur.freq) || m.freq >= old(cur.freq) + 1
+//@   proves @lemma-unique-at-target forall m *freqNode :: {m.freq} livef(c, m) && m != item.freqNode ==> m.freq != item.freqNode.freq
+//@   proves @lemma-up-at-target forall m *freqNode :: {m.freq} livef(c, m) && m.freq > item.freqNode.freq ==> item.freqNode.next != nil && m.freq >= item.freqNode.next.freq
+//@   proves @lemma-down-at-target forall m *freqNode :: {m.freq} livef(c, m) && m.freq < item.freqNode.freq ==> item.freqNode.prev != nil && m.freq <= item.freqNode.prev.freq
+//@   proves @lemma-up-at-previous-node prv != nil ==> forall m *freqNode :: {m.freq} livef(c, m) && m.freq > prv.freq ==> prv.next != nil && m.freq >= prv.next.freq
+//@   proves @lemma-up-elsewhere forall n *freqNode, m *freqNode :: {n.next, m.freq} livef(c, n) && livef(c, m) && n != item.freqNode && n != cur && n != prv && m.freq > n.freq ==> n.next != nil && m.freq >= n.next.freq
+//@   proves @lemma-down-at-next-node nxt != nil ==> forall m *freqNode :: {m.freq} livef(c, m) && m.freq < nxt.freq ==> nxt.prev != nil && m.freq <= nxt.prev.freq
+//@   proves @lemma-down-elsewhere forall n *freqNode, m *freqNode :: {n.prev, m.freq} livef(c, n) && livef(c, m) && n != item.freqNode && n != cur && n != nxt && m.freq < n.freq ==> n.prev != nil && m.freq <= n.prev.freq
+//@   proves @node-order-unique nbuniq(c)
+//@   proves @node-order-up nbup(c)
+//@   proves @node-order-down nbdown(c)
+//@   proves @head-is-lowest cinvhead(c)
+//@   ensures @count-goes-up-by-one item.freqNode.freq == old(item.freqNode.freq) + 1 && len(c.items) == old(len(c.items))
 //@   ensures @other-keys-keep-their-count forall k string :: has(c.items, k) && k != item.key ==> c.items[k].freqNode == old(c.items[k].freqNode) && c.items[k].freqNode.freq == old(c.items[k].freqNode.freq)
+//@   ensures @well-formed cwf(c)
+
+//@ func NewCounter
+//@   prop C19
+//@   flag strict-nil
+//@   modifies nothing
+//@   unfold @ret cwf(result)
+//@   ensures @empty-and-well-formed result != nil && fresh(result) && cwf(result) && cinvmap(result) && result.capacity == capacity && len(result.items) == 0
+
+//@ func (*Counter).Incr
+//@   prop C19
+//@   flag strict-nil
+//@   unfold cwf(c)
+//@   requires @object-invariant counterok(c)
+//@   requires @counts-below-max-uint64 countsbelowmax(c)
+//@   modifies all, ipos, iat
+//@   ensures @well-formed cwf(c)
+//@   ensures @never-more-keys-than-capacity len(c.items) <= int(c.capacity)
+//@   ensures @object-invariant counterok(c)
+//@   ensures @accessed-key-is-tracked has(c.items, key)
+//@   ensures @exact-count c.items[key].freqNode.freq == ite(old(has(c.items, key)), old(c.items[key].freqNode.freq) + 1, 1)
+//@   ensures @other-keys-keep-their-count-or-are-evicted forall k string :: k != key && has(c.items, k) ==> old(has(c.items, k)) && c.items[k].freqNode.freq == old(c.items[k].freqNode.freq)
+//@   ensures @at-most-one-eviction-of-a-lowest-count forall k string, j string :: old(has(c.items, k)) && !has(c.items, k) && old(has(c.items, j)) ==> !old(has(c.items, key)) && old(c.items[k].freqNode.freq) <= old(c.items[j].freqNode.freq)
+
+
+//@ func (*Counter).Free
+//@   prop C19
+//@   flag strict-nil
+//@   requires c != nil
+//@   modifies all
+//@   ensures @starts-over cwf(c) && len(c.items) == 0
+
+// ---- C19: the collector object -------------------------------------------------------------------------
+
+//@ func withCollectInterval$1
+//@   prop C19
+//@   requires c != nil
+//@   modifies c.collectInterval
+
+//@ func withEvictInterval$1
+//@   prop C19
+//@   requires c != nil
+//@   modifies c.evictInterval
+
+//@ func NewCollector
+//@   prop C19
+//@   modifies nothing
+//@   ensures @empty-report result != nil && fresh(result) && result.capacity == capacity && len(result.keys) == 0 && result.counters != nil && len(result.counters) == 0
+//@   loop 0 invariant c != nil && fresh(c) && c.capacity == capacity && len(c.keys) == 0 && c.counters != nil && fresh(c.counters) && len(c.counters) == 0
+
+//@ func (*Collector).HotKeys
+//@   prop C19
+//@   requires c != nil
+//@   modifies nothing
+//@   ensures @the-report sameslice(result, c.keys)
+
+//@ func (*Collector).AllocCounter
+//@   prop C19
+//@   requires c != nil && c.counters != nil
+//@   requires @counters-registered forall n string :: has(c.counters, n) ==> c.counters[n] != nil && cinvmap(c.counters[n])
+//@   modifies mapof(c.counters)
+//@   ensures @registered result != nil && has(c.counters, name) && c.counters[name] == result
+//@   ensures @counters-registered forall n string :: has(c.counters, n) ==> c.counters[n] != nil && cinvmap(c.counters[n])
+//@   ensures @new-counters-are-empty-and-sized-by-the-collector !old(has(c.counters, name)) ==> fresh(result) && cwf(result) && result.capacity == c.capacity && len(result.items) == 0
